@@ -46,11 +46,20 @@ UNDER_TEST = [
     (C("ROLEQ", "MARG", frame="NED"), {"magnetic_ref": 60.0}, True), (C("ROLEQ", "MARG", frame="ENU"), {"magnetic_ref": 60.0}, True),
     (C("Fourati", "MARG"), {}, False),
     (C("AngularRate", "GYR", mode="closed"), {}, True), (C("AngularRate", "GYR", mode="series", gain="high"), {}, True),
+    # default magnetic reference (the Munich WMM vector, frame-dependent), interleaved with an instance of the OTHER frame
+    (C("EKF", "MARG", frame="NED", gain="low"), {}, True, (C("EKF", "MARG", frame="ENU", gain="low"), {}, True)),
+    (C("EKF", "MARG", frame="ENU", gain="high"), {}, True, (C("EKF", "MARG", frame="NED", gain="high"), {}, True)),
+    (C("ROLEQ", "MARG", frame="ENU", gain="low"), {}, True, (C("ROLEQ", "MARG", frame="NED", gain="low"), {}, True)),
+    # an explicit time step that differs from 1/frequency (the constructors accept both)
+    (C("Madgwick", "MARG", rate="3Hz"), {"gain": 0.1, "Dt": 0.02}, False), (C("Mahony", "IMU", rate="3Hz"), {"Dt": 0.02}, True),
+    (C("EKF", "MARG", frame="NED", rate="3Hz"), {"magnetic_ref": 60.0, "Dt": 0.02}, True), (C("UKF", "IMU", rate="3Hz"), {"Dt": 0.02}, True),
+    (C("AQUA", "MARG", mode="fixed", rate="3Hz"), {"Dt": 0.02}, True), (C("ROLEQ", "MARG", frame="NED", rate="3Hz"), {"magnetic_ref": 60.0, "Dt": 0.02}, True),
+    (C("Fourati", "MARG", rate="3Hz"), {"Dt": 0.02}, False), (C("AngularRate", "GYR", mode="closed", rate="3Hz"), {"Dt": 0.02}, True),
 ]
 
 
 def name_of(c):
-    return "%s|%s" % (c["f"], "|".join(c[k] for k in ("arch", "frame", "mode", "gain") if c[k] not in ("-", "default")))
+    return "%s|%s" % (c["f"], "|".join(c[k] for k in ("arch", "frame", "mode", "gain", "rate") if c[k] not in ("-", "default", "100Hz")))
 
 
 def data(h):
@@ -70,13 +79,53 @@ def carried(cfg, obj):
     return out
 
 
+SOLO_IDS = [1, 2, 3, 1, 2, 2]
+
+
+def solo(ti):
+    """the configuration alone, in this process as it is now: batch over a fixed history"""
+    real, extra, honours = UNDER_TEST[ti][:3]
+    np.random.seed(12345)
+    g, a, m = data(SOLO_IDS)
+    out = np.asarray(FL.batch(real, g, a, m, q0=Q0 if honours else None, extra=extra)[1], dtype=float)
+    return [[float(x).hex() for x in row] for row in out]
+
+
+def fresh_solo(ti):
+    """the same in a FRESH interpreter (nothing else has been constructed there): the reference for isolation from
+    process-wide state (module-level caches, class attributes, NumPy's global RNG)"""
+    import subprocess, sys, json, os
+    code = "import sys, json; sys.path.insert(0, %r); sys.path.insert(0, %r); import warnings; warnings.filterwarnings('ignore'); from vf.props import c06; print(json.dumps(c06.solo(%d)))" % (
+        os.path.dirname(os.path.dirname(os.path.dirname(os.path.abspath(__file__)))), os.environ.get("AHRS_REPO", "/repo"), ti)
+    p = subprocess.run([sys.executable, "-c", code], stdout=subprocess.PIPE, stderr=subprocess.PIPE, text=True, env=dict(os.environ, PYTHONDONTWRITEBYTECODE="1"))
+    if p.returncode != 0:
+        return {"error": p.stderr[-400:]}
+    return json.loads(p.stdout.strip().splitlines()[-1])
+
+
 def replay_behaviours(args):
-    behs, ti = args
+    behs, ti, fresh = args
     t = Tally()
-    real, extra, honours = UNDER_TEST[ti]
-    other = UNDER_TEST[(ti + 5) % len(UNDER_TEST)]
+    real, extra, honours = UNDER_TEST[ti][:3]
+    other = UNDER_TEST[ti][3] if len(UNDER_TEST[ti]) > 3 else UNDER_TEST[(ti + 5) % len(UNDER_TEST)][:3]
     cname = name_of(real)
     seen = {}
+    # isolation from process-wide state: first let an instance of the OTHER configuration live in this process, then run this
+    # configuration alone; the rows must be bit-identical to the same run in a fresh interpreter
+    try:
+        g_, a_, m_ = data(SOLO_IDS)
+        FL.batch(other[0], g_, a_, m_, q0=Q0 if other[2] else None, extra=other[1])
+    except Exception:
+        pass
+    if isinstance(fresh, dict):
+        t.fail("C06|%s|fresh-interpreter-run-raises" % cname, fresh)
+    else:
+        t.calls += 1
+        o = core.outcome(lambda: solo(ti))
+        if o[0] != "ok":
+            t.fail("C06|%s|Batch-raises-%s" % (cname, o[1]), {"err": o[2]})
+        elif o[1] != fresh:
+            t.fail("C06|%s|depends-on-what-ran-before-in-the-process" % cname, {"other": name_of(other[0]), "here": o[1][-1], "fresh_interpreter": fresh[-1]})
 
     def conc(model_cfg):
         # the model's two configurations: the Madgwick one stands for the class under test, the other for a
@@ -176,9 +225,12 @@ def run(chk):
     res = tlc.run_tlc("MC_FilterLifecycle", cfgtxt, simulate=nb, depth=14, seed=chk.seed % 100000, workers=1, want_behaviours=True, timeout=1200)
     chk.add_tlc("FilterLifecycle[-simulate %d x depth 14, len<=6]" % nb, res)
     behs = res.behaviours
+    from concurrent.futures import ThreadPoolExecutor
+    with ThreadPoolExecutor(16) as ex:
+        fresh = list(ex.map(fresh_solo, range(len(UNDER_TEST))))
     import multiprocessing as mp
     with mp.get_context("fork").Pool(16) as pool:
-        core.merge(chk, pool.map(replay_behaviours, [(behs, ti) for ti in range(len(UNDER_TEST))]))
+        core.merge(chk, pool.map(replay_behaviours, [(behs, ti, fresh[ti]) for ti in range(len(UNDER_TEST))]))
 
 
 def replay(chk, body):
